@@ -338,11 +338,39 @@ def check_graph(ctx, A, directed):
                 if not directed:
                     W[j, i] = 0.0
             net.set_link_attribute("lw", W)
-        D = np.asarray(net.path_lengths(), float)
-        DW = np.asarray(net.path_lengths("lw"), float) if has else D
+        # reference distances from an object of their own (copies)
+        ref_net = InteractingNetworks(adjacency=A, directed=directed,
+                                      silence_level=3)
+        if has:
+            ref_net.set_link_attribute("lw", W)
+        D = np.array(ref_net.path_lengths(), dtype=float)
+        DW = np.array(ref_net.path_lengths("lw"), dtype=float) if has else D
         for l1, l2 in partitions(ctx, n):
             want = defs(A, W, D, DW, l1, l2, directed, n)
             k2 = dict(key, l1=l1, l2=l2)
+            # the n.s.i. path measures read the same memoised matrices: they
+            # run first, the sub-block measures below must not notice
+            for nm in ("nsi_cross_closeness_centrality",
+                       "nsi_cross_average_path_length"):
+                try:
+                    with np.errstate(all="ignore"):
+                        getattr(net, nm)(list(l1), list(l2))
+                except Exception:
+                    ctx.stat("raises_" + nm)
+            try:
+                with np.errstate(all="ignore"):
+                    net.nsi_internal_closeness_centrality(list(l1))
+            except Exception:
+                ctx.stat("raises_nsi_internal_closeness_centrality")
+            Pnow = np.asarray(net.path_lengths(), float)
+            if not np.array_equal(Pnow, D):
+                ctx.violation("InteractingNetworks.path_lengths",
+                              "the sub-blocks of the path-length matrix are "
+                              "no longer the shortest-path lengths after the "
+                              "n.s.i. cross / internal closeness measures ran",
+                              dict(k2, got=Pnow.tolist(), want=D.tolist()),
+                              {"history": True})
+                break
             for name, call in CALLS.items():
                 if name not in want:
                     continue
